@@ -5,6 +5,10 @@
 //           switch_weight/256 (prefer_switch points: 160/256); spurious weak-CAS failure when c>=232
 //   mode 1  explicit: each byte IS the index of the chosen alternative (bounded-exhaustive DFS
 //           and hand-written replays); spurious failure iff the byte is non-zero
+//   mode 2  PCT (probabilistic concurrency testing, Burckhardt et al.): every thread gets a
+//           generated priority when first seen, the highest-priority runnable thread runs, and at
+//           1..3 generated change points (decision indices) the running thread drops to the lowest
+//           priority - long uninterrupted runs with a few precisely placed preemptions
 // An exhausted stream gives the default alternative (continue the running thread; the scheduler's
 // fairness quantum keeps spin loops progressing).
 #pragma once
@@ -38,14 +42,45 @@ class ByteSource : public vsched::ChoiceSource
 public:
   explicit ByteSource(vh::Reader &rd, unsigned switch_weight = 48) : rd_(rd), sw_(switch_weight)
   {
-    mode_ = rd_.u8() & 1;
+    mode_ = rd_.u8() % 3;
     last_trace().clear();
+    if (mode_ == 2)
+    {
+      unsigned d = 1 + rd_.below(3);
+      for (unsigned i = 0; i < d; ++i)
+        change_points_.push_back(rd_.below(rd_.coin() ? 120 : 700));
+    }
   }
   int mode() const { return mode_; }
-  int choose(int n, bool cur_runnable, bool prefer_switch) override
+  const char *mode_name() const { return mode_ == 0 ? "weighted" : mode_ == 1 ? "explicit" : "pct"; }
+  int choose(int n, bool cur_runnable, bool prefer_switch, const int *ids) override
   {
     int k = 0;
-    if (!rd_.exhausted())
+    if (mode_ == 2)
+    {
+      // priorities: assigned on first sight
+      for (int i = 0; i < n; ++i)
+      {
+        size_t id = static_cast<size_t>(ids[i]);
+        if (id >= prio_.size())
+          prio_.resize(id + 1, -1);
+        if (prio_[id] < 0)
+          prio_[id] = 1000 + static_cast<int>(rd_.u8()) * 8 + static_cast<int>(id);
+      }
+      if (cur_runnable)
+        for (unsigned cp : change_points_)
+          if (cp == decisions_)
+            prio_[static_cast<size_t>(ids[0])] = --lowest_;
+      if (prefer_switch && cur_runnable)
+        prio_[static_cast<size_t>(ids[0])] = --lowest_;  // a yielding thread lets the others go first
+      int best = 0;
+      for (int i = 1; i < n; ++i)
+        if (prio_[static_cast<size_t>(ids[i])] > prio_[static_cast<size_t>(ids[best])])
+          best = i;
+      k = best;
+      ++decisions_;
+    }
+    else if (!rd_.exhausted())
     {
       uint8_t c = rd_.u8();
       if (mode_ == 1)
@@ -62,13 +97,24 @@ public:
       last_trace().push_back(Decision{k, n, cur_runnable, false});
     return k;
   }
+  void quantum_expired(int id) override
+  {
+    if (mode_ == 2 && id >= 0)
+    {
+      if (static_cast<size_t>(id) >= prio_.size())
+        prio_.resize(static_cast<size_t>(id) + 1, -1);
+      prio_[static_cast<size_t>(id)] = --lowest_;
+    }
+  }
   bool spurious() override
   {
     bool f = false;
-    if (!rd_.exhausted())
+    if (mode_ != 2 && !rd_.exhausted())
     {
       uint8_t c = rd_.u8();
       f         = mode_ == 1 ? c != 0 : c >= 232;
+      if (mode_ == 2)
+        f = false;  // PCT mode spends its stream on priorities only
     }
     if (last_trace().size() < kMaxTrace)
       last_trace().push_back(Decision{f ? 1 : 0, 2, false, true});
@@ -80,6 +126,10 @@ private:
   vh::Reader &rd_;
   unsigned sw_;
   int mode_;
+  std::vector<int> prio_;
+  std::vector<unsigned> change_points_;
+  unsigned decisions_ = 0;
+  int lowest_         = 0;
 };
 
 inline void fatal(const vsched::Failure &f)
